@@ -65,7 +65,7 @@ def ident(R, ctx):
             R.ob(rid, "%s|%s@%d" % (short, c["fn"].split("::")[-2], k), ok, ctx.where(fn, c.get("ln")),
                  "name built from a run-time string %s" % ("under is_valid_identifier" if ok else "WITHOUT is_valid_identifier: a key such as `end`, `1a` or `a-b` is emitted as a bare name (invalid Lua or another key)"))
         R.require(rid, "%s|floor" % short, k >= 1, ctx.where(fn), "%d guarded constructions in this function" % k)
-    R.require(rid, "floor", n >= 5, "", "%d constructions checked (floor 5)" % n)
+    R.require(rid, "floor", n >= 3, "", "%d constructions checked (floor 3)" % n)
     # the fallback exists in the data serializer: TableIndexEntry with the string
     fn = lib.fn(SITES[0])
     if fn is not None:
@@ -128,7 +128,7 @@ def total(R, ctx):
                                "serialize_newtype_struct", "serialize", "serialize_seq", "serialize_map", "serialize_unit_variant", "serialize_tuple", "serialize_struct"}) or \
                 any(x.get("k") == "Adt" and x.get("variant") == "Err" for x in thir.walk(thir.body_of(fn)))
             R.ob(rid, it["name"], ok, ctx.where(fn), "produces an expression / delegates / errors: %s (calls %s)" % (ok, sorted(x for x in names if x)[:6]))
-    R.require(rid, "floor", n >= 25, "", "%d serialize_* methods (floor 25)" % n)
+    R.require(rid, "floor", n >= 20, "", "%d serialize_* methods (floor 20)" % n)
 
 
 INT_BITS = {"i8": (8, True), "i16": (16, True), "i32": (32, True), "i64": (64, True), "i128": (128, True), "isize": (64, True),
@@ -173,7 +173,7 @@ def casts(R, ctx):
             n += 1
             R.ob(rid, "%s|%s-as-%s" % (f["path"].split("::")[-1], src, dst), not cast_is_lossy(src, dst), ctx.where(f, x.get("ln")),
                  "`%s as %s` %s" % (src, dst, "wraps/truncates: large or negative integers of the document change value" if cast_is_lossy(src, dst) else "is value-preserving up to the nearest double"))
-    R.require(rid, "floor", n >= 3, "", "%d numeric casts in the serializer (floor 3)" % n)
+    R.require(rid, "floor", n >= 1, "", "%d numeric casts in the serializer (floor 1)" % n)
 
 
 def bracket(R, ctx):
